@@ -291,7 +291,7 @@ Definition update_hostname (rg : registry) (orig new_name : bytes) (probe_time :
        let nm := p_name r in
        match aget nm (rg_probing rg1) with
        | Some p =>
-         let p' := mkProbe (insert_record r (pb_records p)) (pb_waiting p) probe_time (pb_next p) in
+         let p' := mkProbe (insert_record r (pb_records p)) (pb_waiting p) probe_time probe_time in
          (mkReg (aset nm p' (rg_probing rg1)) (rg_active rg1) (rg_changes rg1), added)
        | None =>
          let p' := mkProbe [r] [] probe_time probe_time in
@@ -403,14 +403,20 @@ Fixpoint times_from (t : N) (ops : list (N * rop)) : Prop :=
   | (t', _) :: r => t <= t' /\ times_from t' r
   end.
 
+Definition is_conflict (o : rop) : bool := match o with OConflict _ _ => true | _ => false end.
+
 (* every probe query for `n` and every activation of `n` comes at least 250 ms after the previous
-   probe query for `n` (`last`: time of the previous one, if any) *)
-Fixpoint spaced_250 (n : bytes) (last : option N) (tr : list (N * list bytes * list bytes)) : Prop :=
-  match tr with
-  | [] => True
-  | (t, qs, ex) :: tr' =>
+   probe query for `n` (`last`: time of the previous one, if any).  Handling a conflicting
+   response starts the count afresh: conflict resolution restarts probes at now + 0..250
+   (new names, and since the fix for C07-host-rename-skips-reprobe also the probe of an SRV
+   record whose target host was renamed). *)
+Fixpoint spaced_250 (n : bytes) (last : option N) (ops : list (N * rop))
+         (tr : list (N * list bytes * list bytes)) : Prop :=
+  match ops, tr with
+  | (_, o) :: ops', (t, qs, ex) :: tr' =>
     (mem n qs = true \/ mem n ex = true -> match last with Some l => l + 250 <= t | None => True end)
-    /\ spaced_250 n (if mem n qs then Some t else last) tr'
+    /\ spaced_250 n (if is_conflict o then None else if mem n qs then Some t else last) ops' tr'
+  | _, _ => True
   end.
 
 (* consecutive elements at least 250 apart *)
